@@ -1,0 +1,61 @@
+//! Verification hooks (compiled only with `--cfg eigerco_lumina_verif`).
+//!
+//! Runs the real `HeaderExServerHandler` over a store with a mock `ResponseSender`, the same way
+//! the `#[cfg(test)]` tests of `header_ex::server` do. Nothing here changes the behaviour of the
+//! code it wraps.
+
+use std::future::{Future, poll_fn};
+use std::pin::Pin;
+use std::sync::Arc;
+use std::task::Poll;
+
+use celestia_proto::p2p::pb::{HeaderRequest, HeaderResponse};
+use libp2p::PeerId;
+use tokio::sync::oneshot;
+
+use super::{HeaderExServerHandler, ResponseSender};
+use crate::p2p::header_ex::ResponseType;
+use crate::store::Store;
+
+struct OneshotResponseSender;
+
+impl ResponseSender for OneshotResponseSender {
+    type Channel = oneshot::Sender<ResponseType>;
+
+    fn send_response(&mut self, channel: Self::Channel, response: ResponseType) {
+        let _ = channel.send(response);
+    }
+}
+
+/// Feeds `request` to a fresh server handler over `store` (`on_request_received`), polls the
+/// handler until it hands a response to the response sender and returns that response.
+///
+/// Returns `None` if the handler dropped the response channel without answering.
+pub async fn serve_request<S>(store: Arc<S>, request: HeaderRequest) -> Option<Vec<HeaderResponse>>
+where
+    S: Store + 'static,
+{
+    let mut handler = HeaderExServerHandler::<S, OneshotResponseSender>::new(store);
+    let mut sender = OneshotResponseSender;
+    let (tx, mut rx) = oneshot::channel();
+
+    handler.on_request_received(PeerId::random(), "verif", request, &mut sender, tx);
+
+    poll_fn(|cx| {
+        loop {
+            if let Poll::Ready(res) = Pin::new(&mut rx).poll(cx) {
+                return Poll::Ready(res.ok());
+            }
+
+            if handler.poll(cx, &mut sender).is_pending() {
+                return Poll::Pending;
+            }
+        }
+    })
+    .await
+}
+
+/// `MAX_HEADERS_AMOUNT_RESPONSE` of the server.
+pub fn server_max_headers_amount_response() -> u64 {
+    super::MAX_HEADERS_AMOUNT_RESPONSE
+}
